@@ -31,7 +31,7 @@ CONTRACTS = {
         modifies=[],
     ),
     GN + "GraphNode._resolve_original_input_name": dict(
-        props=["C05", "C06"],
+        props=["C05", "C06", "C08"],
         params={"self": OBJ("GraphNode"), "param": STR},
         returns=STR,
         imports=BRM,
@@ -96,7 +96,7 @@ CONTRACTS.update({
         modifies=[],
     ),
     GN + "GraphNode.has_default_for": dict(
-        props=["C05", "C06"],
+        props=["C05", "C06", "C08"],
         params={"self": OBJ("GraphNode"), "param": STR},
         returns=BOOL,
         # a wrapper input has a default exactly when its ORIGINAL inner name is bound in the inner graph or defaulted by an inner consumer
@@ -104,7 +104,7 @@ CONTRACTS.update({
         modifies=[],
     ),
     GN + "GraphNode.get_default_for": dict(
-        props=["C05", "C06"],
+        props=["C05", "C06", "C08"],
         params={"self": OBJ("GraphNode"), "param": STR},
         returns=ANY,
         raises={"KeyError": "not (" + ORIG + " in self._graph.inputs.bound or " + INNER_DEFAULT + ")"},
